@@ -1027,10 +1027,16 @@ class Engine:
         nd = 0 if n is None else int(n)
         if abs(nd) > 12:
             return SymFloat(self.fresh_real('round'))
+        xt = z3.simplify(x.t)
+        key = ('round%d' % nd, xt.sexpr())
+        hit = self.summaries.get(key)
+        if hit is not None:
+            return SymFloat(hit[0])         # the same argument rounds to the same value (one integer per distinct argument on a path)
         k = self.fresh_int('roundk')
         scale = realval(Fraction(10) ** nd)
         r = z3.ToReal(k) / scale
-        self.add_axiom(z3.And(r - x.t <= realval(Fraction(1, 2)) / scale, x.t - r <= realval(Fraction(1, 2)) / scale))
+        self.add_axiom(z3.And(r - xt <= realval(Fraction(1, 2)) / scale, xt - r <= realval(Fraction(1, 2)) / scale))
+        self.summaries[key] = (r, [])
         return SymFloat(r)
 
     # ---- exploration
